@@ -257,6 +257,48 @@ fn significant_blanks(acc: &mut Acc) {
     }
 }
 
+/// `!f(..)`, `!(f(..))`, `(!f(..))`, `!((f(..)))` and their blank variants are one filter, also when `f` is one of the
+/// extension functions and also when the call has no proper result (a missing or non-array argument)
+fn negated_function_spellings(acc: &mut Acc) {
+    let doc = json!({"elems": [{"x": 1, "y": [1, 2]}, {"x": "a", "y": "a"}, {"x": [1], "y": [[1]]}, {"y": [1]}, {"x": 3}, {"x": null, "y": null}], "l": [1, "a"], "s": "[1]", "n": 5});
+    let am = AddrMap::new(&doc);
+    let calls = [
+        "in(@.x,$.l)", "in(@.x,@.y)", "in(@.x,$.s)", "in(@.x,$.n)", "in(@.x,$.zz)", "nin(@.x,$.l)", "nin(@.x,@.y)", "nin(@.x,$.n)", "nin(@.x,$.zz)", "any_of(@.y,$.l)", "any_of(@.y,$.n)", "none_of(@.y,$.l)",
+        "none_of(@.y,$.zz)", "subset_of(@.y,$.l)", "subset_of(@.x,$.l)", "match(@.x,'a')", "match(@.x,'[')", "search(@.y,'a')", "search(@.x,@.y)", "match(@.zz,'a')",
+    ];
+    for c in calls {
+        let canon = format!("$.elems[?!{}]", c);
+        let base = ids_only(&imp::run_with_path(&canon, &doc, &am));
+        for v in [format!("$.elems[?!({})]", c), format!("$.elems[?(!{})]", c), format!("$.elems[?!(({}))]", c), format!("$.elems[? ! {} ]", c), format!("$.elems[?!(!(!{}))]", c), format!("$.elems[?!{}&&!{}]", c, c), format!("$.elems[?!({}||{})]", c, c)] {
+            acc.evals += 1;
+            let r = ids_only(&imp::run_with_path(&v, &doc, &am));
+            if r != base {
+                acc.viol(
+                    format!("{:?} and {:?} are equivalent spellings but on {} give {:?} and {:?}", canon, v, doc, base, r),
+                    json!({"kind": "spelling", "class": "negated function tests", "canonical": canon, "variant": v, "doc": doc}),
+                );
+            } else {
+                acc.nontrivial += 1;
+            }
+        }
+        // and the un-negated spellings
+        let canon = format!("$.elems[?{}]", c);
+        let base = ids_only(&imp::run_with_path(&canon, &doc, &am));
+        for v in [format!("$.elems[?({})]", c), format!("$.elems[?!(!{})]", c), format!("$.elems[?!(!({}))]", c), format!("$.elems[?{}||{}]", c, c)] {
+            acc.evals += 1;
+            let r = ids_only(&imp::run_with_path(&v, &doc, &am));
+            if r != base {
+                acc.viol(
+                    format!("{:?} and {:?} are equivalent spellings but on {} give {:?} and {:?}", canon, v, doc, base, r),
+                    json!({"kind": "spelling", "class": "negated function tests", "canonical": canon, "variant": v, "doc": doc}),
+                );
+            } else {
+                acc.nontrivial += 1;
+            }
+        }
+    }
+}
+
 pub fn replay_sequence(case: &Value, _run: &Run) -> Acc {
     let mut acc = Acc::new();
     let doc = &case["doc"];
@@ -351,6 +393,7 @@ pub fn run(tier: &str) -> i32 {
     number_family(&mut acc);
     number_magnitudes(&mut acc);
     significant_blanks(&mut acc);
+    negated_function_spellings(&mut acc);
     if acc.extra.get("MACHINERY_invalid_spelling").copied().unwrap_or(0) > 0 {
         eprintln!("MACHINERY: the spelling generator produced strings the RFC recogniser rejects:");
         for o in acc.outcomes.iter().take(5) {
